@@ -111,6 +111,8 @@ structure State where
   txs      : List (Nat × Nat)               -- wtxmgr: recorded (tx id, height)
   credits  : List Credit                    -- wtxmgr credits
   calls    : Nat := 0                       -- ghost: number of FilterBlocks requests made so far
+  leased   : List OutPoint := []            -- wtxmgr: outputs locked by LeaseOutput (lease not expired)
+  unmined  : List Tx := []                  -- wtxmgr: unmined transaction records
 
 def State.init (window : Nat) (scopes : List Nat) : State :=
   { window := window, scopes := scopes, branches := [], watched := [], next := [], used := [], txs := [], credits := [] }
@@ -183,6 +185,25 @@ def extendFound (st : State) (k : BranchId) (idxs : List Nat) : State :=
   { st with branches := assocSet st.branches k b, next := assocSet st.next k next',
             used := idxs.foldl (fun u i => u.insert ⟨k.1, k.2, i⟩) st.used }
 
+/-- What `Store.UnspentOutputs` (wtxmgr/tx.go fetchCredits(ns, false, false, true)) leaves out of the unspent mined
+    credits: locked (leased) outputs and outputs spent by an unmined transaction.  `Store.Balance` subtracts the same. -/
+def hidden (st : State) (op : OutPoint) : Bool :=
+  st.leased.contains op || st.unmined.any (fun t => t.ins.contains op)
+
+/-- `Wallet.LeaseOutput` / `Store.LockOutput`: only a known unspent output can be locked (`ErrUnknownOutput`). -/
+def leaseOutput (st : State) (op : OutPoint) : Option State :=
+  if st.credits.any (fun c => c.op == op && !c.spent) then some { st with leased := st.leased.insert op } else none
+
+/-- `Wallet.ReleaseOutput` / `Store.UnlockOutput` (same lock id). -/
+def releaseOutput (st : State) (op : OutPoint) : Option State :=
+  if st.credits.any (fun c => c.op == op && !c.spent) then some { st with leased := st.leased.erase op } else none
+
+/-- `addRelevantTx` for an unmined transaction WITHOUT wallet outputs (`insertMemPoolTx`): recorded unless already
+    known; the credits it spends count as spent by an unmined transaction from now on (`hidden`). -/
+def addUnmined (st : State) (tx : Tx) : State :=
+  if st.txs.any (fun p => p.1 == tx.id) || st.unmined.any (fun t => t.id == tx.id) then st
+  else { st with unmined := st.unmined ++ [tx] }
+
 /-- `addRelevantTx` during recovery: record the tx; every output paying an address the address manager knows
     (index below the branch's next index, default scope) becomes a credit; inputs spending credits mark them spent. -/
 def addRelevantTx (st : State) (tx : Tx) (height : Nat) : State :=
@@ -199,7 +220,11 @@ def addRelevantTx (st : State) (tx : Tx) (height : Nat) : State :=
         else outs rest (i + 1) cs used
       | none => outs rest (i + 1) cs used
   let (cs, used) := outs tx.outs 0 credits st.used
-  { st with txs := st.txs ++ [(tx.id, height)], credits := cs, used := used }
+  -- insertMinedTx: an unmined record of the same tx moves into the block, conflicting unmined txs are removed
+  -- (removeDoubleSpends); a spent output is no longer in the unspent bucket, so its lock is moot
+  { st with txs := st.txs ++ [(tx.id, height)], credits := cs, used := used,
+            unmined := st.unmined.filter (fun t => !(t.id == tx.id) && !(t.ins.any (fun op => tx.ins.contains op))),
+            leased := st.leased.filter (fun op => !tx.ins.contains op) }
 
 /-- Everything `recoverScopedAddresses` does with a non-nil filter response. -/
 def applyFound (st : State) (height : Nat) (f : Found) : State :=
@@ -226,7 +251,9 @@ def recoverBatch (invalid : BranchId → List Nat) (st : State) (batch : List (N
 
 /-- `RecoveryManager.Resurrect`: rebuild the in-memory state from what is on disk (after a restart, or when
     `recovery` is re-entered after an error): addresses below the key counts, ReportFound(count-1), the unspent
-    credits as watched outpoints. The horizon is NOT restored (it restarts at the number of invalid children seen). -/
+    credits as watched outpoints — `recovery()` passes `TxStore.UnspentOutputs` (wallet.go:732), which omits leased
+    outputs and outputs spent by an unmined transaction (`hidden`), unlike `activeData` (`OutputsToWatch`).
+    The horizon is NOT restored (it restarts at the number of invalid children seen). -/
 def resurrectBranch (window : Nat) (inv : List Nat) (count : Nat) : Branch :=
   let b := (List.range count).foldl (fun b i => if inv.contains i then b.markInvalid i else b.addAddr i) (Branch.new window)
   if count > 0 then b.reportFound (count - 1) else b
@@ -234,7 +261,7 @@ def resurrectBranch (window : Nat) (inv : List Nat) (count : Nat) : Branch :=
 def resurrect (invalid : BranchId → List Nat) (st : State) : State :=
   { st with
     branches := (branchIds st.scopes).map (fun k => (k, resurrectBranch st.window (invalid k) (st.nextOf k)))
-    watched := (st.credits.filter (fun c => !c.spent)).map (·.op) }
+    watched := (st.credits.filter (fun c => !c.spent && !hidden st c.op)).map (·.op) }
 
 /-- `Wallet.recovery` over the blocks above the wallet's tip, cut into batches; `cuts` says after which batches the
     process is interrupted and later resumed (in-memory state lost, `Resurrect`).  Blocks are (height, block). -/
@@ -251,7 +278,10 @@ def recover (invalid : BranchId → List Nat) (window batchSize : Nat) (scopes :
     (blocks : List (Nat × Block)) (cuts : Nat → Bool) : State :=
   recoverChain invalid batchSize (blocks.length + 1) (resurrect invalid (State.init window scopes)) blocks cuts 0
 
-def balance (st : State) : Nat := (st.credits.filter (fun c => !c.spent)).foldl (fun s c => s + c.amount) 0
+/-- `CalculateBalance(1)` / the `UnspentOutputs` listing: unspent credits that are not `hidden`. -/
+def spendable (st : State) : List Credit := st.credits.filter (fun c => !c.spent && !hidden st c.op)
+
+def balance (st : State) : Nat := (spendable st).foldl (fun s c => s + c.amount) 0
 
 /-! ### locateBirthdayBlock -/
 
